@@ -46,3 +46,67 @@ Definition p_spin : prog :=
      [IStore 1 7 Relaxed; IStore 0 1 Release]].
 Example C18_spin_completes : fin_of p_spin = RunOk.
 Proof. vm_compute. reflexivity. Qed.
+
+(* ==== appended by tools/mkprops.py (APPEND table) ==== *)
+
+Require Import LV.Base LV.VV LV.VVFacts LV.Path LV.PathSpec LV.PathTerm LV.PathDistinct LV.PathApi LV.Prog LV.Objects LV.Exec LV.Atomic LV.Ops LV.Check LV.ExecFacts LV.YieldFacts.
+
+(* Yield scheduling (YieldFacts.v): the decisions of Execution::schedule after yield_now *)
+(* a thread that yields is not chosen while another thread is runnable: the spin loop lets the writer run *)
+Theorem C18_yield_other_runnable :
+  forall (e : exec) (me : nat) (t : thread) (i : nat) (th : thread),
+       e_active e = Some me ->
+       nth_error (e_threads e) me = Some t ->
+       yield_room e me ->
+       i <> me ->
+       nth_error (e_threads e) i = Some th ->
+       is_runnable th = true ->
+       exists (e2 : exec) (nx : nat) (thx : thread),
+         schedule (yield_state e me) = (MOk e2, true) /\
+         e_active e2 = Some nx /\
+         nx <> me /\ nth_error (e_threads e) nx = Some thx /\ is_runnable thx = true.
+Proof. exact yield_other_runnable. Qed.
+Print Assumptions C18_yield_other_runnable.
+
+(* if nothing else can run the yielded thread continues (no false deadlock) *)
+Theorem C18_yield_alone_continues :
+  forall (e : exec) (me : nat) (t : thread),
+       e_active e = Some me ->
+       nth_error (e_threads e) me = Some t ->
+       yield_room e me ->
+       (forall (i : nat) (th : thread),
+        i <> me ->
+        nth_error (e_threads e) i = Some th -> is_runnable th = false /\ is_yield th = false) ->
+       exists e2 : exec,
+         schedule (yield_state e me) = (MOk e2, false) /\
+         e_active e2 = Some me /\
+         (exists t2 : thread,
+            nth_error (e_threads e2) me = Some t2 /\ t_state t2 = Yielded /\ t_cont t2 = t_cont t).
+Proof. exact yield_alone_continues. Qed.
+Print Assumptions C18_yield_alone_continues.
+
+(* after a scheduling decision every other yielded thread is runnable again *)
+Theorem C18_yield_others_reactivated :
+  forall (e e2 : exec) (nx i : nat) (th : thread),
+       fst (schedule e) = MOk e2 ->
+       e_active e2 = Some nx ->
+       i <> nx ->
+       nth_error (e_threads e) i = Some th ->
+       is_yield th = true ->
+       exists th2 : thread,
+         nth_error (e_threads e2) i = Some th2 /\
+         is_runnable th2 = true /\ t_cont th2 = t_cont th /\ t_op th2 = t_op th.
+Proof. exact yield_others_reactivated. Qed.
+Print Assumptions C18_yield_others_reactivated.
+
+(* schedule never fails while some thread is runnable or yielded and the stack has room *)
+Theorem C18_schedule_succeeds :
+  forall (e : exec) (curr : nat) (cur_th : thread) (nx : nat),
+       sched_room e ->
+       e_active e = Some curr ->
+       nth_error (e_threads e) curr = Some cur_th ->
+       seed_choice (sched_seed (e_threads e) curr cur_th) = Some nx ->
+       exists e2 : exec, schedule e = (MOk e2, negb (curr =? nx)) /\ e_active e2 = Some nx.
+Proof. exact schedule_succeeds. Qed.
+Print Assumptions C18_schedule_succeeds.
+
